@@ -309,6 +309,8 @@ Fixpoint t87_line (fuel : nat) (p : jparams) (single : bool) (width : Z) (st : t
       end
   end.
 
+Definition t87_rev (l : list Z) : list Z := rev_append l [].
+
 (* extended previous line of a component: c_left, the line, its last sample again *)
 Definition t87_extend (c_left : Z) (line : list Z) : list Z :=
   c_left :: line ++ [last line 0].
@@ -324,8 +326,8 @@ Fixpoint t87_lines (hfuel : nat) (p : jparams) (single : bool) (width : Z) (wn :
     match t87_line (S wn) p single width st 0 cs bits with
     | None => None
     | Some (cs', st', r) =>
-      let lines := map (fun c => rev (tc_cur c)) cs' in
-      let prevs' := map (fun pc => (rev (tc_cur (snd pc)), t87_e0 (fst (fst pc))))
+      let lines := map (fun c => t87_rev (tc_cur c)) cs' in
+      let prevs' := map (fun pc => (t87_rev (tc_cur (snd pc)), t87_e0 (fst (fst pc))))
                         (combine prevs cs') in
       match t87_lines hf p single width wn st' prevs' r with
       | None => None
